@@ -123,3 +123,57 @@ def no_task_subclass_overrides(prog: Program, res: Result, prop: str) -> None:
                 f = ci.methods[m]
                 _f(prog, res, prop, f"{prop}.chain.sealed", f.node, f,
                    f"{ci.qualname} overrides Task.{m}; the chain rules analyse the base implementation")
+
+
+CHAIN_METHODS = ("solve", "correct_solution", "initial_solution", "get_variables", "empty_solution", "get_bounds")
+
+
+def check_chain_pure(prog: Program, res: Result, prop: str) -> None:
+    """The correction chain is a function of the *declared* fields only: none of the Task methods on it (nor the
+    Variable protocol methods they call) stores into its own object - a memo of the flattened variables or bounds would
+    keep correcting against a search space the task no longer declares."""
+    from .alias import MUTATORS
+    from .callgraph import Resolver, own_nodes, reachable
+    task = prog.cls(TASK)
+    roots = [task.methods[m] for m in CHAIN_METHODS if m in task.methods]
+    seen = reachable(prog, None, roots, Resolver(prog, None))
+    n = 0
+    for f in seen:
+        if f.cls is None or not (prog.is_subclass(f.cls, TASK) or prog.is_subclass(f.cls, f"{PKG}.models.Variable")
+                                 or f.cls.qualname == f"{PKG}.models.LabelEncoder"):
+            continue
+        if f.name == "__init__":
+            continue
+        n += 1
+        for node in own_nodes(f):
+            hit = None
+            if isinstance(node, (ast.Attribute, ast.Subscript)) and isinstance(node.ctx, (ast.Store, ast.Del)):
+                b = node
+                while isinstance(b, (ast.Attribute, ast.Subscript)):
+                    b = b.value
+                if isinstance(b, ast.Name) and b.id == "self":
+                    hit = node
+            elif isinstance(node, ast.Call) and isinstance(node.func, ast.Attribute) and node.func.attr in MUTATORS:
+                b = node.func.value
+                while isinstance(b, (ast.Attribute, ast.Subscript)):
+                    b = b.value
+                if isinstance(b, ast.Name) and b.id == "self":
+                    hit = node
+            elif isinstance(node, ast.Call) and isinstance(node.func, ast.Name) and node.func.id in ("setattr", "object.__setattr__"):
+                hit = node
+            if hit is not None:
+                res.ob(False)
+                res.add(Finding(prop, f"{prop}.chain.pure", construct_key(prog, hit, f.module), f"{f.module.relpath}:{hit.lineno}",
+                                f"{f.qualname} is on the correction chain and stores into its own object "
+                                f"(`{norm(hit, 60)}`): positions are then corrected against remembered variables/bounds instead of "
+                                f"the ones the task declares now"))
+        for node in own_nodes(f):
+            # decorators that memoise
+            pass
+        for d in getattr(f.node, "decorator_list", []):
+            if any(k in norm(d) for k in ("cache", "lru_cache", "cached_property")):
+                res.ob(False)
+                res.add(Finding(prop, f"{prop}.chain.pure", construct_key(prog, f.node, f.module) + "::decorator", f.loc(),
+                                f"{f.qualname} is on the correction chain and is memoised with `{norm(d)}`"))
+    res.count("chain.pure-functions", n)
+    res.ob(True, f"{n} Task/Variable functions on the correction chain store nothing into their own object", "chain.pure")
